@@ -69,7 +69,8 @@ ASSUMPTIONS = [
 FAULT_CLASSES = ['EA', 'EAB', 'EABC', 'EX', 'EMI', 'KeyError', 'ValueError',
                  'IndexError', 'EAB~', 'EX~', 'ETY', 'TypeError']
 HANDLER_POOL = ['EA', 'EAB', 'EABC', 'EX', 'EMI', 'KeyError', 'LookupError',
-                'ValueError', 'IndexError', 'Exception', 'TypeError', 'ETY']
+                'ValueError', 'IndexError', 'Exception', 'TypeError', 'ETY',
+                'NotFound']
 PLAIN = {'error_type': 'OUTER', 'X_EA': E.EA, 'X_EAB': E.EAB,
          'X_EABC': E.EABC, 'X_EX': E.EX, 'X_EMI': E.EMI, 'X_ETY': E.ETY,
          'SEQ2': ['p', 'q'], 'SEQ1': ['p'], 'SEQ0': []}
@@ -154,7 +155,8 @@ class Gen:
                       {'expr': 'X_EA'}, {'expr': 'X_EAB'}, {'expr': 'X_EABC'},
                       {'expr': 'X_EX'}, {'expr': 'X_EMI'}, 'site', 'site',
                       'site', {'name': 'TypeError'}, {'expr': 'X_ETY'},
-                      {'name': 'AttributeError'}])
+                      {'name': 'AttributeError'}, {'name': 'NotFound'},
+                      {'name': 'BadRequest'}])
         if t == 'site':
             s = self.site('NX')
             self.script[s] = {'rot': [{'exc': c} for c in r.sample(
@@ -280,9 +282,20 @@ def gen_case(seed, tier):
                         else g.n_tryf(1, 0, False))
     top['n'].append(g.mark(top['b'] + 'end'))
     subs = {k: v for k, v in g.subs.items() if v}
+    # in half the programs some part markers do not look at the error
+    # binding (a look-up is an observation that can itself settle a value
+    # the package computes lazily): they only mark that the part ran
+    rq = core.stream(seed, 'c14quiet')
+    quiet = []
+    if rq.random() < 0.5:
+        marks = sorted({n for n in list(E.all_sites(top)) + [
+            x for v in subs.values() for x in E.all_sites(v['body'])]
+            if n[:2] in ('M_', 'N_')})
+        quiet = [n for n in marks if rq.random() < 0.4]
     return {'kind': 'prog', 'body': top, 'subs': subs, 'script': g.script,
             'mode': r.choice(['top', 'top', 'sub']),
-            'pair_seed': r.randint(0, 10 ** 9), 'plans': None}
+            'pair_seed': r.randint(0, 10 ** 9), 'plans': None,
+            'quiet': quiet}
 
 
 # ------------------------------------------------------------------ runner
@@ -290,8 +303,11 @@ def gen_case(seed, tier):
 class Env14(E.RunEnv):
     """records, at every marker, the error binding the namespace shows"""
 
+    quiet = ()
+
     def invoke(self, name, md=None):
-        if md is not None and name[:2] in ('M_', 'N_'):
+        if md is not None and name[:2] in ('M_', 'N_') and \
+                name not in self.quiet:
             note = []
             for key in ('error_type', 'error_value'):
                 try:
@@ -326,6 +342,7 @@ def prepare(case):
 def run_real(case, prep, plan, shift=0):
     from DocumentTemplate._DocumentTemplate import TemplateDict
     env = Env14(case.get('script', {}), plan)
+    env.quiet = frozenset(case.get('quiet') or ())
     env.shift = shift
     env.extra_names = dict(prep['subs'])
     env.extra_names.update(PLAIN)
@@ -398,8 +415,10 @@ def compare(case, prep, plan, shift=0):
               if e.site[:2] in ('M_', 'N_') and e.md is not None]
         mm = [(s, k, (t, d)) for s, k, (t, d) in m.marks]
         mm = [(s, k, (t, d)) for s, k, (t, d) in mm]
-        rmn = [[s, k, list(n) if n else None] for s, k, n in rm]
-        mmn = [[s, k, [t, d]] for s, k, (t, d) in mm]
+        qt = frozenset(case.get('quiet') or ())
+        rmn = [[s, k, list(n) if n else None] for s, k, n in rm
+               if s not in qt]
+        mmn = [[s, k, [t, d]] for s, k, (t, d) in mm if s not in qt]
         if rmn != mmn:
             i = 0
             while i < min(len(rmn), len(mmn)) and rmn[i] == mmn[i]:
